@@ -1094,7 +1094,14 @@ func (m *Memberlist) aliveNode(a *alive, notify chan struct{}, bootstrap bool) {
 
 	// Bail if strictly less and this is about us
 	if a.Incarnation < state.Incarnation && isLocalNode {
-		return
+		if !bootstrap {
+			return
+		}
+		// This is our own update (UpdateNode), and a refutation or a concurrent
+		// update moved our incarnation past the one it picked. Dropping it would
+		// lose the new meta data and never signal the notify channel, so issue
+		// it with a fresh incarnation instead.
+		a.Incarnation = m.nextIncarnation()
 	}
 
 	// Clear out any suspicion timer that may be in effect.
